@@ -20,6 +20,7 @@ import Driver.OpsApi
 import Driver.OpsGlue
 import Driver.OpsServe
 import Driver.OpsLegal
+import Driver.OpsMCTSPolicy
 namespace Driver
 
 def handlers : List Handler := [
@@ -44,6 +45,7 @@ def handlers : List Handler := [
   handleApi,
   handleGlue,
   handleLegal,
+  handleMCTSPolicy,
 ]
 
 def step (st : St) (line : String) : St × String :=
